@@ -698,18 +698,18 @@ def mismatch_job():
     return path
 
 
-def outofrange_job(nx=2, ny=3, T=2):
+def outofrange_job(nx=2, ny=3, T=2, xdt='int32', ydt='int32', hi=None):
     """state ids outside their OWN side's declared range are rejected by mi_matrix even when they would be legal for the other
     side (different state counts on the two sides); in-range data is accepted"""
     mi_mod = loader.load('enspara.info_theory.mutual_info')
 
     def path(ctx):
         ctx.resolve_masks = True
-        hi = max(nx, ny)
-        xs = [core.fresh_int('x', 0, hi - 1) for _ in range(T)]
-        ys = [core.fresh_int('y', 0, hi - 1) for _ in range(T)]
-        X = [funcs.np_array([[v] for v in xs], dtype=np.int32)]
-        Y = [funcs.np_array([[v] for v in ys], dtype=np.int32)]
+        top = hi if hi is not None else max(nx, ny)
+        xs = [core.fresh_int('x', 0, top - 1) for _ in range(T)]
+        ys = [core.fresh_int('y', 0, top - 1) for _ in range(T)]
+        X = [funcs.np_array([[v] for v in xs], dtype=np.dtype(xdt))]
+        Y = [funcs.np_array([[v] for v in ys], dtype=np.dtype(ydt))]
         exc = None
         try:
             mi_mod.mi_matrix(X, Y, [nx], [ny], normalize=False)
@@ -721,11 +721,11 @@ def outofrange_job(nx=2, ny=3, T=2):
 
         def witness(model):
             xv, yv = [int(ev(model, v)) for v in xs], [int(ev(model, v)) for v in ys]
-            out = {'inputs': {'X': xv, 'Y': yv, 'n_x': [nx], 'n_y': [ny]}, 'skip_compare': True, 'out': None}
+            out = {'inputs': {'X': xv, 'Y': yv, 'n_x': [nx], 'n_y': [ny], 'X.dtype': xdt, 'Y.dtype': ydt}, 'skip_compare': True, 'out': None}
             ok = all(v < nx for v in xv) and all(v < ny for v in yv)
             with core.concrete_mode():
                 try:
-                    mi_mod.mi_matrix([np.array([[v] for v in xv], dtype=np.int32)], [np.array([[v] for v in yv], dtype=np.int32)],
+                    mi_mod.mi_matrix([np.array([[v] for v in xv], dtype=np.dtype(xdt))], [np.array([[v] for v in yv], dtype=np.dtype(ydt))],
                                      [nx], [ny], normalize=False)
                     raised = None
                 except Exception as e:
@@ -896,6 +896,9 @@ def jobs(tier):
     add('mismatch_job', 'length-mismatch-rejected[per trajectory, also when the totals agree]')
     add('outofrange_job', 'out-of-range-ids[states 2 vs 3]', nx=2, ny=3, T=2)
     add('outofrange_job', 'out-of-range-ids[states 3 vs 2]', nx=3, ny=2, T=2)
+    # feature arrays of DIFFERENT integer types and ids far outside the range (an id that would be legal after wrapping in a narrower type)
+    add('outofrange_job', 'out-of-range-ids[states 2 vs 3, int64 vs int32, ids < 600]', nx=2, ny=3, T=2, xdt='int64', ydt='int32', hi=600)
+    add('outofrange_job', 'out-of-range-ids[states 3 vs 3, int16 vs int64, ids < 30000]', nx=3, ny=3, T=1, xdt='int16', ydt='int64', hi=30000)
     add('pooled_job', 'pooled-counts[2 trajectories x 3 frames]', T=3)
     add('pooled_job', 'pooled-counts[2 x 130 frames (2 symbolic each): count tables must not wrap in a narrow dtype]', T=130, nsym=2)
     from harness import kernels
